@@ -476,7 +476,7 @@ pub struct Wrap;
 fn step_core<T: Smp>(b: &mut Runner<T>, op: &Op) -> StepOut<T> {
     match op {
         Op::Proc { mask, empty_inactive, .. } => b.step(&Op::Proc { path: Path::Exact, slack_in: 0, slack_out: 0, mask: mask.clone(), empty_inactive: *empty_inactive }),
-        Op::Partial { frac, mask, .. } => {
+        Op::Partial { frac, mask, ragged, .. } => {
             // zero-padded equivalent: k frames of signal then zeros up to input_frames_next()
             let g = b.drv.getters();
             let n_in = g.in_next;
@@ -490,7 +490,7 @@ fn step_core<T: Smp>(b: &mut Runner<T>, op: &Op) -> StepOut<T> {
             for ch in 0..nch {
                 let mut c = Vec::with_capacity(n_in);
                 for j in 0..n_in {
-                    c.push(if j < k { b.sample(ch, b.pos + j as u64) } else { T::of64(0.0) });
+                    c.push(if j < partial_len(k, *ragged, ch, nch) { b.sample(ch, b.pos + j as u64) } else { T::of64(0.0) });
                 }
                 wi.push(c);
             }
@@ -539,14 +539,14 @@ impl Wrap {
                     *path = Path::Vecs;
                 } else if x < 0.75 {
                     let frac = if rng.chance(0.35) { None } else { Some(rng.f()) };
-                    *op = Op::Partial { frac, into: rng.bool(), mask: m };
+                    *op = Op::Partial { frac, into: rng.bool(), mask: m, ragged: if rng.chance(0.4) { Some(rng.next()) } else { None } };
                 }
             }
         }
         // a flush tail: repeated None calls
         if rng.chance(0.4) {
             for _ in 0..rng.ui(1, 4) {
-                ops.push(Op::Partial { frac: None, into: rng.bool(), mask: None });
+                ops.push(Op::Partial { frac: None, into: rng.bool(), mask: None, ragged: None });
             }
         }
         let s1 = rng.next();
